@@ -150,20 +150,23 @@ def gen_case(rng, malformed=None):
         elif kind == "blocks>255":
             buffer = 4
             binaries[call["map"][0][0]] = [rng.randrange(256) for _ in range(4 * rng.choice([255, 256, 257]))]
-        elif kind == "dupcore" and call["map"][0][1] and nbin > 1:
-            x, y, ps = call["map"][0][1][0]
-            other = (call["map"][0][0] + 1) % nbin
-            entry = [e for e in call["map"] if e[0] == other]
-            if not entry:
-                call["map"].append([other, [[x, y, [ps[0]]]]])
-            else:
-                t = [t for t in entry[0][1] if t[:2] == [x, y]]
-                if t:
-                    t[0][2] = sorted(set(t[0][2]) | {ps[0]})
-                else:
-                    entry[0][1].append([x, y, [ps[0]]])
         elif kind == "dupcore":
-            kind = "valid"
+            # name one core for a second binary: the first (entry, chip) that has a core at all
+            src = [(e, t) for e in call["map"] for t in e[1] if t[2]]
+            if src and nbin > 1:
+                e0, (x, y, ps) = src[0]
+                other = (e0[0] + 1) % nbin
+                entry = [e for e in call["map"] if e[0] == other]
+                if not entry:
+                    call["map"].append([other, [[x, y, [ps[0]]]]])
+                else:
+                    t = [t for t in entry[0][1] if t[:2] == [x, y]]
+                    if t:
+                        t[0][2] = sorted(set(t[0][2]) | {ps[0]})
+                    else:
+                        entry[0][1].append([x, y, [ps[0]]])
+            else:
+                kind = "valid"
         elif kind == "empty":
             call["map"] = rng.choice([[], [[call["map"][0][0], []]], [[call["map"][0][0], [[chips[0][0], chips[0][1], []]]]]])
         elif kind == "buffer-odd":
@@ -176,6 +179,17 @@ def gen_case(rng, malformed=None):
     machine = dict(buffer=buffer, base=rng.choice([0x60240000, 0x60000000, 0x67800010]), vcpu=0xe5007000,
                    vcpus=vcpus, chips=[[c[0], c[1], cores[c]] for c in chips], sched=sched)
     return dict(machine=machine, binaries=binaries, calls=calls, kind=kind)
+
+
+def draw_case(chk, mal):
+    """gen_case, re-drawn if it raises (counted, and reported as a broken obligation at the end: the cause must
+    be fixed, the run must not die of it)."""
+    for _ in range(20):
+        try:
+            return gen_case(chk.rng, mal)
+        except Exception as e:        # noqa
+            chk.count("generator-exception:%s" % type(e).__name__)
+    return gen_case(chk.rng, None)
 
 
 MALFORMED = ["core18", "nochip", "chip256", "app256", "odd-length", "blocks>255", "dupcore", "empty",
@@ -773,7 +787,7 @@ def run(chk, args):
         cases = []
         for i in range(n):
             mal = MALFORMED[(i // 8) % len(MALFORMED)] if i % 8 == 7 else None
-            cases.append(gen_case(chk.rng, mal))
+            cases.append(draw_case(chk, mal))
         fixed = [k3_history(), stale_requested_history(), rewrite_history(), controller_state_history()]
         if chk.tier != "quick":
             fixed += gen_exhaustive()
@@ -882,6 +896,9 @@ def run(chk, args):
                            "every datagram with its reply, every core state, nn id) + trace validator" % len(idx), True)
         except RuntimeError as e:
             chk.oblige("correspondence:model-evaluates", False, str(e))
+    bad_gen = sum(v for k_, v in chk.dist.items() if k_.startswith("generator-exception:"))
+    chk.oblige("generator:no-exception (%d re-drawn)" % bad_gen, bad_gen == 0,
+               "gen_case raised %d times; the histories were re-drawn" % bad_gen)
     chk.coverage["rule"] = ("fault histories: machine of 1-6 chips of a pool spanning several regions (6%% a whole 4x4 "
                             "block), buffer in {8,12,16,32,64,128,130,254,255,256}, sv->vcpu_base differing from chip to chip (80%%), core collections given as set / frozenset / tuple / list / range (one-shot generator / iter / map / filter for bare flood fills), wait spelt as bool / int / numpy bool / None, chips with an empty core set and binaries without chips (20%%), app id and wait through context objects created earlier or changed by update_current_context (37%%), a connection whose sequence number wraps during the first call (12%%), the same dict / set objects handed over again after in-place changes (20%% of later calls), 1-3 binaries of k*buffer-4/+0/+4 bytes, cores left "
                             "waiting/running by earlier sessions (45%%), per-fill miss sets with rate in {0,.15,.3,.5,.8,1}, "
